@@ -335,7 +335,7 @@ func runLimits(p Payload, res fw.Result) fw.Result {
 	res.Nontrivial = true
 	budget := int64(m.Steps)*50 + 200000
 	tr := drive.RunTree(ao.Modules, src, "main", drive.TreeOpts{CallLimit: p.CallLimit, StepBudget: budget})
-	if !okOutcome(tr.Outcome) && !(tr.Outcome.Class == "step-budget" && hasTag(pr, "for-live-list")) {
+	if !okOutcome(tr.Outcome) {
 		res.Verdict = fw.Violated
 		res.Sig = "tree:limits:" + tr.Outcome.Class + ":" + util.NormPanic(tr.Outcome.Message)
 		res.Why = fmt.Sprintf("interpreter under call limit %d: %s\n%s", p.CallLimit, tr.Outcome, src["main"])
